@@ -1052,6 +1052,8 @@ def task_wide(t):
                 if k:
                     acc.violation("term|%s|%s" % (kind, k), dict(env.base("term"), value=enc(kind, v)), what)
             domain_checks(acc, env)
+            if kind == "dt" and family == "main":
+                typed_date_checks(acc, env)
         n = 0
         for ia, a in enumerate(AN):
             for ib, b in enumerate(AN):
@@ -1137,6 +1139,78 @@ def domain_checks(acc, env):
             if k:
                 acc.violation("domain|%s|%s|%s" % (env.kind, c, k),
                               dict(env.base("domain"), value=enc(env.kind, v), ctx=c), what)
+
+
+# ---------------------------------------------------------------------------
+# DATETIME: a date typed to a period (year .. microsecond) through the query
+# parser reads as the whole period, also as a range bound (docs/dates.rst) -
+# including the periods that touch the two ends of the domain
+
+PERIOD_NAMES = ["", "year", "month", "day", "hour", "minute", "second", "microsecond"]
+
+
+def typed_period(v, prec):
+    """(text, first instant, last instant) of the period of precision prec that contains v"""
+    dt = datetime.datetime
+    comps = [v.year, v.month, v.day, v.hour, v.minute, v.second][:min(prec, 6)]
+    text = "%04d" % comps[0] + "".join("%02d" % x for x in comps[1:])
+    if prec == 7:
+        return text + "%06d" % v.microsecond, v, v
+    first = dt(*(comps + [1, 1, 0, 0, 0][len(comps) - 1:]))
+    try:
+        if prec == 1:
+            nxt = dt(v.year + 1, 1, 1)
+        elif prec == 2:
+            nxt = dt(v.year + (v.month == 12), v.month % 12 + 1, 1)
+        else:
+            nxt = first + [None, None, None, datetime.timedelta(days=1), datetime.timedelta(hours=1),
+                           datetime.timedelta(minutes=1), datetime.timedelta(seconds=1)][prec]
+        last = nxt - datetime.timedelta(microseconds=1)
+    except (ValueError, OverflowError):
+        last = dt.max           # no successor: the period runs to the end of the domain
+    return text, first, last
+
+
+def typed_case(env, text, lo, hi):
+    """parse ``text`` with the field's parser and compare the matched values with [lo, hi]"""
+    try:
+        q = env.qp.parse(text)
+        got = set(env.s.docs_for_query(q))
+    except Exception as ex:
+        return exc_kind(ex), "parsing/searching %r raised %r at %s" % (text, ex, where(ex)), True
+    yes = set(i for i, v in enumerate(env.vals) if expect("dt", v, lo, hi, False, False))
+    trivial = (not yes) or len(yes) == len(env.vals)
+    if got == yes:
+        return None, None, trivial
+    extra, missing = got - yes, yes - got
+    return ("extra" if extra else "missing"), "%r (parsed as %r) returned values %s; the typed period(s) cover %s .. %s, i.e. %s" % (
+        text, q, brief(sorted(env.vals[i] for i in got)), lo, hi, brief(sorted(env.vals[i] for i in yes))), trivial
+
+
+def typed_date_checks(acc, env):
+    A = alphabet(env.cfg, env.seed)
+    done = set()
+    for ia, a in enumerate(A):
+        for prec in range(1, 8):
+            ta, fa, la = typed_period(a, prec)
+            forms = [("term", "n:%s" % ta, fa, la), ("from", "n:[%s TO]" % ta, fa, None), ("upto", "n:[TO %s]" % ta, None, la)]
+            for b in A[ia:ia + 3]:
+                tb, fb, lb = typed_period(b, prec)
+                forms.append(("range", "n:[%s TO %s]" % (ta, tb), fa, lb))
+            for form, text, lo, hi in forms:
+                if text in done:
+                    continue
+                done.add(text)
+                acc.count("evaluations")
+                acc.count("typed_period_queries")
+                k, what, trivial = typed_case(env, text, lo, hi)
+                if not trivial:
+                    acc.count("distinct_nontrivial")
+                if hi == datetime.datetime.max or lo == datetime.datetime.min:
+                    acc.count("typed_periods_touching_a_domain_end")
+                if k:
+                    acc.violation("typed|dt|%s|%s|%s" % (form, PERIOD_NAMES[prec], k),
+                                  dict(env.base("typed"), text=text, lo=enc("dt", lo), hi=enc("dt", hi)), what)
 
 
 def clamped(env, start, end):
@@ -1426,6 +1500,9 @@ def replay(case):
         if mode == "range":
             k, what, _ = range_case(env, dec(kind, case["start"]), dec(kind, case["end"]),
                                     case["se"], case["ee"], case["path"])
+            return {"ok": k is None, "kind": k, "what": what}
+        if mode == "typed":
+            k, what, _ = typed_case(env, case["text"], dec(kind, case["lo"]), dec(kind, case["hi"]))
             return {"ok": k is None, "kind": k, "what": what}
         if mode == "term":
             k, what = term_case(env, dec(kind, case["value"]))
